@@ -2,6 +2,7 @@ package ast
 
 import (
 	"fmt"
+	"strconv"
 	"strings"
 
 	"github.com/smarthome-go/homescript/v3/homescript/errors"
@@ -76,7 +77,8 @@ func (self FloatLiteralExpression) String() string {
 		return fmt.Sprintf("%df", int64(self.Value))
 	}
 
-	return fmt.Sprint(self.Value)
+	// The grammar has no exponent notation: `1e-05` (what `fmt.Sprint` prints for 0.00001) cannot be read back.
+	return strconv.FormatFloat(self.Value, 'f', -1, 64)
 }
 
 //
